@@ -824,6 +824,224 @@ theorem scan_rdfi_prefix (n k : Nat) (sent : α) (rs : List (Rec α)) (hs : Orde
 
 end rdfi
 
+/-! ### array call forms of `BinaryThermodynamics.getInterfacialComposition` (model: `KawinV.IC.getIC`)
+
+`backend T gs` stands for `_interfacialComposition(T, gs)`; that its vectorised evaluation is the list of the scalar
+evaluations at the same temperature (`backend T gs = gs.map (single T)`) is what the scan theorems give per GE index and
+what the oracle monitors on the real thermodynamics; it is a hypothesis here.  The dispatch itself is kawin's own logic. -/
+
+section dispatch
+variable {α : Type} [LinearOrder α] {ρ : Type}
+
+theorem eqv_iff (a b : α) : eqv a b = true ↔ a = b := by
+  unfold eqv
+  simp only [Bool.not_eq_true', Bool.or_eq_false_iff, decide_eq_false_iff_not, not_lt]
+  exact ⟨fun h => le_antisymm h.2 h.1, fun h => by subst h; exact ⟨le_refl _, le_refl _⟩⟩
+
+/-- `len(np.unique(T)) == 1` holds exactly when every entry equals the first one -/
+theorem allEqual_iff (t0 : α) (rest : List α) : allEqual (t0 :: rest) = true ↔ ∀ t ∈ rest, t = t0 := by
+  simp only [allEqual, List.all_eq_true, eqv_iff]
+
+theorem allEqual_replicate (t0 : α) (rest : List α) (h : allEqual (t0 :: rest) = true) :
+    t0 :: rest = List.replicate (rest.length + 1) t0 := by
+  rw [allEqual_iff] at h
+  rw [List.replicate_succ]
+  congr 1
+  exact List.eq_replicate_iff.mpr ⟨rfl, h⟩
+
+/-- **the vectorised path is taken only when every `T_i` equals `T_0`**: a single call for the whole `gExtra` array
+means all temperatures are equal -/
+theorem vectorised_only_if_all_equal (t0 : α) (rest gs : List α) (hne : rest ≠ [])
+    (h : (icCalls allEqual (t0 :: rest) gs).length = 1 ∧ 2 ≤ gs.length) : ∀ t ∈ rest, t = t0 := by
+  by_contra hcon
+  have hf : allEqual (t0 :: rest) = false := by
+    rw [← Bool.not_eq_true, allEqual_iff]; exact hcon
+  obtain ⟨h1, h2⟩ := h
+  simp only [icCalls, hf, Bool.false_eq_true, if_false, List.length_map, List.length_zip,
+    List.length_cons] at h1
+  cases rest with
+  | nil => exact hne rfl
+  | cons r rs => simp only [List.length_cons] at h1; omega
+
+/-- with differing temperatures every condition gets its own call `(T_i, [g_i])` -/
+theorem per_condition_calls (t0 : α) (rest gs : List α) (h : ∃ t ∈ rest, t ≠ t0) :
+    icCalls allEqual (t0 :: rest) gs = ((t0 :: rest).zip gs).map (fun p => (p.1, [p.2])) := by
+  have hf : allEqual (t0 :: rest) = false := by
+    rw [← Bool.not_eq_true, allEqual_iff]; push_neg; exact h
+  simp only [icCalls, hf, Bool.false_eq_true, if_false]
+
+theorem flatMap_single_zip (single : α → α → ρ) (Ts gs : List α) :
+    (((Ts.zip gs).map (fun p => (p.1, [p.2]))).flatMap (fun c => c.2.map (single c.1))) = List.zipWith single Ts gs := by
+  induction Ts generalizing gs with
+  | nil => simp
+  | cons t ts ih =>
+    cases gs with
+    | nil => simp
+    | cons g gs' =>
+      simp only [List.zip_cons_cons, List.map_cons, List.flatMap_cons, List.map_nil, List.zipWith_cons_cons]
+      rw [ih gs']; rfl
+
+theorem zipWith_replicate_left (single : α → α → ρ) (t0 : α) (gs : List α) :
+    List.zipWith single (List.replicate gs.length t0) gs = gs.map (single t0) := by
+  induction gs with
+  | nil => simp
+  | cons g gs ih => simp [List.replicate_succ, ih]
+
+/-- **batching purity of the dispatch**: if the backend's vectorised evaluation is the list of its scalar evaluations,
+then for broadcast arrays of equal length the array answer is the element-wise map of the scalar answers
+`single T_i g_i` — for EVERY temperature array (constant, ramp, cycle, permutation, repeats) -/
+theorem icResult_eq_zipWith (backend : α → List α → List ρ) (single : α → α → ρ)
+    (hb : ∀ T gs, backend T gs = gs.map (single T)) (Ts gs : List α) (hl : Ts.length = gs.length) :
+    icResult backend allEqual Ts gs = List.zipWith single Ts gs := by
+  cases Ts with
+  | nil => simp [icResult, icCalls]
+  | cons t0 rest =>
+    unfold icResult
+    by_cases h : allEqual (t0 :: rest) = true
+    · have hrep := allEqual_replicate t0 rest h
+      simp only [icCalls, h, if_true, List.flatMap_cons, List.flatMap_nil, List.append_nil, hb]
+      have hl' : rest.length + 1 = gs.length := by simpa using hl
+      rw [hrep, hl', zipWith_replicate_left]
+    · have hf : allEqual (t0 :: rest) = false := by simpa using h
+      simp only [icCalls, hf, Bool.false_eq_true, if_false, hb]
+      exact flatMap_single_zip single (t0 :: rest) gs
+
+theorem processTG_length (Ts gs Ts' gs' : List α) (h : processTG Ts gs = some (Ts', gs')) : Ts'.length = gs'.length := by
+  unfold processTG at h
+  split at h
+  · cases h; assumption
+  · split at h <;> simp at h <;> (obtain ⟨h1, h2⟩ := h; subst h1; subst h2; simp)
+
+/-- the public query, all documented call forms: whenever the lengths are compatible the answer is the element-wise map
+of the scalar answers over the broadcast arrays -/
+theorem getIC_eq_zipWith (backend : α → List α → List ρ) (single : α → α → ρ)
+    (hb : ∀ T gs, backend T gs = gs.map (single T)) (Ts gs Ts' gs' : List α) (h : processTG Ts gs = some (Ts', gs')) :
+    getIC backend Ts gs = some (List.zipWith single Ts' gs') := by
+  unfold getIC
+  rw [h]
+  simp only [Option.map_some]
+  rw [icResult_eq_zipWith backend single hb Ts' gs' (processTG_length Ts gs Ts' gs' h)]
+
+/-- (scalar T, array g): one answer per `g`, all at `T` -/
+theorem getIC_scalar_T (backend : α → List α → List ρ) (single : α → α → ρ)
+    (hb : ∀ T gs, backend T gs = gs.map (single T)) (T : α) (gs : List α) :
+    getIC backend [T] gs = some (gs.map (single T)) := by
+  have hp : processTG [T] gs = some (List.replicate gs.length T, gs) := by
+    unfold processTG
+    by_cases h : [T].length = gs.length
+    · rw [if_pos h]
+      have : gs.length = 1 := by simpa using h.symm
+      rw [this]; rfl
+    · rw [if_neg h]
+  rw [getIC_eq_zipWith backend single hb _ _ _ _ hp, zipWith_replicate_left]
+
+/-- (array T, scalar g): one answer per temperature, each at its own `T_i` -/
+theorem getIC_scalar_g (backend : α → List α → List ρ) (single : α → α → ρ)
+    (hb : ∀ T gs, backend T gs = gs.map (single T)) (Ts : List α) (g : α) (hT : 2 ≤ Ts.length) :
+    getIC backend Ts [g] = some (Ts.map (fun t => single t g)) := by
+  have hp : processTG Ts [g] = some (Ts, List.replicate Ts.length g) := by
+    unfold processTG
+    have h : ¬ Ts.length = [g].length := by simp; omega
+    rw [if_neg h]
+    match Ts, hT with
+    | _ :: _ :: _, _ => rfl
+  rw [getIC_eq_zipWith backend single hb _ _ _ _ hp]
+  clear hp hT
+  induction Ts with
+  | nil => simp
+  | cons t ts ih => simp [List.replicate_succ, ih]
+
+/-- the shortcut agrees with the real test whenever the real test holds … -/
+theorem firstLastEqual_of_allEqual (Ts : List α) (h : allEqual Ts = true) : firstLastEqual Ts = true := by
+  cases Ts with
+  | nil => simp [allEqual] at h
+  | cons t0 rest =>
+    rw [allEqual_iff] at h
+    unfold firstLastEqual
+    cases hl : rest.getLast? with
+    | none => rfl
+    | some tl =>
+      simp only []
+      rw [eqv_iff]
+      exact (h tl (List.mem_of_getLast? hl)).symm
+
+end dispatch
+
+/-- … **but `first == last` does not imply all equal**: the thermal cycle 650 → 725 → 650 passes the shortcut and is not
+isothermal -/
+theorem firstLast_not_allEqual :
+    firstLastEqual [(650 : Int), 725, 650] = true ∧ allEqual [(650 : Int), 725, 650] = false := by
+  decide
+
+/-- **witness for the broken variant**: with the shortcut as dispatch test and an ideal backend (`single T g = T + g`,
+vectorised = map) the cycle is evaluated at `T_0` throughout — the middle entry is the answer for 650, not for 725;
+the real test gives the element-wise answers -/
+theorem firstLast_dispatch_wrong :
+    let backend : Int → List Int → List Int := fun T gs => gs.map (fun g => T + g)
+    icResult backend firstLastEqual [650, 725, 650] [0, 1, 2] = [650, 651, 652] ∧
+    icResult backend allEqual [650, 725, 650] [0, 1, 2] = [650, 726, 652] ∧
+    List.zipWith (fun T g => T + g) [650, 725, 650] [0, 1, 2] = [(650 : Int), 726, 652] := by
+  decide
+
+/-! ### `ExtraGibbsModel`: the extra energy GE in the energy per mole of atoms (GM) and per formula unit (G)
+
+`extraGM`, `extraG` are REGENERATED from the property getters of the real class.  pycalphad normalises
+`G = GM · N`, `N = _site_ratio_normalization` (atoms per formula unit); the sampling method works with GM, the equilibrium
+solver with G.  Both must describe the same extra energy. -/
+
+section extragibbs
+variable {α : Type} [Field α] [LinearOrder α] [IsStrictOrderedRing α] [Trans α]
+
+/-- the normalisation identity: adding GE per mole of atoms is adding `N·GE` to the formula energy -/
+theorem extraG_normalisation (ast GE N : α) : extraG ast GE N = ast * N + N * GE := by
+  simp only [extraG]; ring
+
+theorem extraG_eq_N_mul_extraGM (ast GE N : α) : extraG ast GE N = N * extraGM ast GE := by
+  simp only [extraG, extraGM]; ring
+
+theorem extraGM_shift (ast GE : α) : extraGM ast GE - extraGM ast 0 = GE := by
+  simp only [extraGM]; ring
+
+/-- **both properties describe the same extra energy**: what GE adds per formula unit is `N` times what it adds per
+mole of atoms, for every site-ratio sum `N` -/
+theorem extra_energy_same (ast GE N : α) :
+    extraG ast GE N - extraG ast 0 N = N * (extraGM ast GE - extraGM ast 0) := by
+  simp only [extraG, extraGM]; ring
+
+/-- the unknown the parallel-tangent method solves for through G (`G = N·m`, `m` = energy of the matrix tangent plane per
+mole of atoms) is the driving force per mole of atoms, the same quantity the sampling method reads from GM -/
+theorem tangent_GE_per_atom (ast GE N m : α) (hN : N ≠ 0) : extraG ast GE N = N * m ↔ GE = m - ast := by
+  simp only [extraG]
+  constructor
+  · intro h
+    have h2 : (ast + GE) * N = m * N := by rw [h]; ring
+    have := mul_right_cancel₀ hN h2
+    rw [← this]; ring
+  · intro h; rw [h]; ring
+
+/-- the variant that adds GE after the normalisation -/
+def extraG_after (ast GE N : α) : α := ast * N + GE
+
+/-- it agrees with the normalised form only for `N = 1` (0.75:0.25 descriptions) or without extra energy -/
+theorem extraG_after_eq_iff (ast GE N : α) : extraG_after ast GE N = extraG ast GE N ↔ N = 1 ∨ GE = 0 := by
+  simp only [extraG_after, extraG]
+  constructor
+  · intro h
+    have h2 : GE * (N - 1) = 0 := by linear_combination -h
+    rcases mul_eq_zero.mp h2 with h3 | h3
+    · right; exact h3
+    · left; exact sub_eq_zero.mp h3
+  · rintro (h | h) <;> subst h <;> ring
+
+/-- with it the tangent unknown is `N` times the driving force per mole of atoms -/
+theorem tangent_GE_after (ast GE N m : α) : extraG_after ast GE N = N * m ↔ GE = N * (m - ast) := by
+  simp only [extraG_after]
+  constructor
+  · intro h; linear_combination h
+  · intro h; rw [h]; ring
+
+end extragibbs
+
 /-! ### non-vacuity: the hypothesis sets are satisfiable -/
 
 section nonvacuity
